@@ -108,7 +108,22 @@ func runC07Case(cc *c07Case) *c07Result {
 			break
 		}
 		if err := h.DoWrite(i); err != nil {
+			if err == muxrun.ErrWriteStuck {
+				// (Close is still called below: it must not hang either)
+				fail("writer-stuck", "%s", h.Hangs[len(h.Hangs)-1])
+				h.Hangs = nil
+			}
 			break
+		}
+		if contentAt >= 0 && i == contentAt+2 && cc.Index%3 == 1 {
+			// a viewer asks for something that is not there (an expired segment, favicon.ico): answered at
+			// once, and without any effect on what follows
+			for _, u := range []string{"nothing7.mp4", "favicon.ico"} {
+				if _, st := hx.Get(h.M.Handle, u, 5*time.Second); st != hx.Done {
+					fail("unknown-path-stuck", "request for %s did not return", u)
+				}
+			}
+			res.obs["unknown_path_requests_before_close"]++
 		}
 		stopAt = i + 1
 		r := h.Observe(i, nil, opts)
